@@ -1032,11 +1032,33 @@ def op_aresample(st, o):
 @op("A.reject")
 def op_areject(st, o):
     """Combining fields on different meshes or with incompatible component counts."""
-    ha, hb = st.h[o["a"]], st.h[o["b"]]
+    ha = st.h[o["a"]]
+    f = o["f"]
+    if isinstance(o["b"], dict):
+        # a constant vector with an incompatible number of entries, or an operand of a type that cannot
+        # be combined with a field, on either side: refused, and (whole-heap pass) the field is untouched
+        if ha.kind != "F" or f not in BIN:
+            return "skipped"
+        if "vec" in o["b"]:
+            if ha.fm.nvdim == 1 or len(o["b"]["vec"]) in (1, ha.fm.nvdim):
+                return "skipped"
+            other = _operand(st, o["b"], ha.box.v.n, ha.fm.nvdim)[0]
+            why = "vector length"
+        else:
+            other = {"str": "abc", "none": None, "dict": {"a": 1}}[o["b"]["bad"]]
+            why = "operand type"
+        libf = BIN[f][0]
+        res = sut(lambda: libf(other, ha.obj)) if o.get("reflected") else sut(lambda: libf(ha.obj, other))
+        st.stats.fault("rejected_args")
+        st.stats.oracle("F")
+        st.stats.probe("rejected_constant_operand")
+        if not res.raised:
+            raise Violation("reject.accepted", f"{f} of a field with nvdim {ha.fm.nvdim} and {o['b']} (reflected={bool(o.get('reflected'))}) was accepted", preds=[f, why], kind="F")
+        return "rejected"
+    hb = st.h[o["b"]]
     if ha.kind != "F" or hb.kind != "F":
         return "skipped"
     same_mesh = ha.box.v.key()[:2] == hb.box.v.key()[:2]
-    f = o["f"]
     if f in ("dot", "cross", "angle"):
         bad_dim = ha.fm.nvdim != hb.fm.nvdim
     elif f == "lshift":
